@@ -272,7 +272,7 @@ func replay(p string) int {
 	}
 	// a replay file is either the bare case or {"signature","detail","case"}
 	var wrapped Failure
-	if json.Unmarshal(raw, &wrapped) == nil && len(wrapped.Case) > 0 && wrapped.Signature != "" {
+	if json.Unmarshal(raw, &wrapped) == nil && len(wrapped.Case) > 0 {
 		raw = wrapped.Case
 	}
 	f := def.Judge(raw)
